@@ -96,6 +96,7 @@ const (
 	evClockResume
 	evCampaign
 	evFollowUp
+	evIsolate
 )
 
 type event struct {
@@ -512,17 +513,26 @@ func (g *Gen) after() {
 	// oracle fires and nothing is drawn.
 	if f := c.foreign; f != nil && !g.exploited {
 		g.exploited = true
-		if n := c.nodes[f.Node]; n != nil && n.up && !g.faultFree && c.viol == nil && chance(g.rng, 0.8) {
-			c.stats.fault("crash_following_foreign_violation")
-			g.do(Action{K: ACrash, N: n.id, I: 0, J: 0})
-			down := int64((0.1 + 1.0*g.rng.Float64()) * float64(n.cfg.ElectionTick) * tickUnit)
-			g.schedule(&event{at: g.now + down, kind: evRestart, n: n.id})
-			// ... and once it is back, let it stand for election while the current
-			// leader is cut off: a node that has lost what it promised, or whose
-			// log or hard state is not what it should be, does its damage as a
-			// leader or as a voter
-			if chance(g.rng, 0.7) {
-				g.schedule(&event{at: g.now + down + int64((0.2+1.5*g.rng.Float64())*tickUnit), kind: evFollowUp, n: n.id})
+		if n := c.nodes[f.Node]; n != nil && n.up && !g.faultFree && c.viol == nil {
+			switch r := g.rng.Float64(); {
+			case r < 0.45:
+				c.stats.fault("crash_following_foreign_violation")
+				g.do(Action{K: ACrash, N: n.id, I: 0, J: 0})
+				down := int64((0.1 + 1.0*g.rng.Float64()) * float64(n.cfg.ElectionTick) * tickUnit)
+				g.schedule(&event{at: g.now + down, kind: evRestart, n: n.id})
+				// ... and once it is back, let it stand for election while the current
+				// leader is cut off: a node that has lost what it promised, or whose
+				// log or hard state is not what it should be, does its damage as a
+				// leader or as a voter
+				if chance(g.rng, 0.7) {
+					g.schedule(&event{at: g.now + down + int64((0.2+1.5*g.rng.Float64())*tickUnit), kind: evFollowUp, n: n.id})
+				}
+			case r < 0.85:
+				// or leave it running and cut it off from the others a little later
+				// (what it has just sent still goes out): a leader that accepted or
+				// committed what it should not have keeps acting on it on its side
+				// of the cut while the others elect somebody else
+				g.schedule(&event{at: g.now + int64((0.3+3*g.rng.Float64())*tickUnit), kind: evIsolate, n: n.id})
 			}
 		}
 	}
@@ -716,6 +726,17 @@ func (g *Gen) handle(e *event) {
 	case evFault:
 		g.fault()
 		g.schedule(&event{at: g.expDelay(g.faultRate), kind: evFault})
+	case evIsolate:
+		if n := c.nodes[e.n]; n.up && c.vg == nil && len(c.ids) > 1 {
+			var rest []uint64
+			for _, x := range c.ids {
+				if x != e.n {
+					rest = append(rest, x)
+				}
+			}
+			c.stats.fault("isolation_following_foreign_violation")
+			g.do(Action{K: APartition, Part: [][]uint64{{e.n}, rest}})
+		}
 	case evFollowUp:
 		n := c.nodes[e.n]
 		if !n.up || c.vg != nil {
